@@ -156,6 +156,9 @@ func completeCase(c *mon.Case, i int, how, dk, uc, plant string, s0 int) {
 		ml = c.R.Intn(301)
 	}
 	msg := c.R.Bytes(ml)
+	if uc != "0-nonnil" && uc != "0-spare" { // those two classes are about the exact shape of the empty slice
+		uid, msg = adjacent(c.R, uid, msg)
+	}
 
 	if uc == "8192" {
 		c.Class("uid=8192/key=%s", how)
